@@ -89,11 +89,11 @@ def multi_file_cases(ctx):
     base_c = {"type": "object", "properties": {"sku": {"type": "string", "minLength": 4}}, "required": ["sku"]}
     order = {"$id": "http://x/main", "type": "object", "$defs": {"Base": base_o},
              "properties": {"buyer": {"allOf": [{"$ref": "#/$defs/Base"}, {"type": "object", "properties": {"vip": {"type": "boolean"}}}]},
-                            "item": {"$ref": "catalog.json#/$defs/Item"}}}
+                            "item": {"$ref": "catalog.json#/$defs/Item"}}, "required": ["buyer", "item"]}
     catalog = {"description": "catalog", "$defs": {"Base": base_c,
                                                   "Item": {"type": "object", "properties": {"details": {"allOf": [{"$ref": "#/$defs/Base"},
                                                                                                                {"type": "object", "properties": {"w": {"type": "number", "minimum": 0}}}]},
-                                                                                           "n": {"type": "integer", "minimum": 1}}}}}
+                                                                                           "n": {"type": "integer", "minimum": 1}}, "required": ["details"]}}}
     out = [("same-local-ref-two-files", {"s.json": order, "catalog.json": catalog}, "s.json", [])]
     common = {"description": "common", "$defs": {"Label": {"type": "string", "minLength": 1, "maxLength": 5}, "Amount": {"type": "integer", "minimum": 0, "maximum": 100},
                                               "Pair": {"type": "object", "properties": {"l": {"$ref": "#/$defs/Label"}, "a": {"$ref": "#/$defs/Amount"}}, "required": ["l"]}}}
@@ -218,8 +218,9 @@ def run(ctx):
         dg = Docs(inl, rng)
         docs = []
         seen = set()
-        for _ in range(2):
+        for _k in range(2):
             try:
+                dg.maximal = (_k == 0)
                 base = dg.valid()
             except ValueError:
                 continue
@@ -256,7 +257,8 @@ def run(ctx):
         inl = inline(files[mainp], files, mainp)
         dg = Docs(inl, rng)
         docs, seen = [], set()
-        for _ in range(3):
+        for _k in range(3):
+            dg.maximal = (_k == 0)
             base = dg.valid()
             for cls, path, d in [("valid", (), base)] + dg.mutants(base, CLASSES):
                 key = json.dumps(d, sort_keys=True, default=str)
